@@ -1,2 +1,189 @@
-(* Properties/C08.v — placeholder while the proofs are being written. *)
-From Synnax Require Import Codec.FrameCodec.
+(* Properties/C08.v — Frame wire codec round-trips every frame and is safe on any bytes.
+   Only statements, each closed by [exact] (or short glue), each followed by Print Assumptions.
+
+   Objects (Codec/FrameCodec.v): [encode_state]/[decode_states] are encodeInternal/DecodeStream
+   for one channel-set state; [c_encode]/[c_decode] are the Codec object with its numbered
+   backlog of states; [norm compress st f] is the frame the decoder is specified to return for
+   f: KeepKeys, stable sort by (key, alignment), merging of alignment-contiguous series (when
+   compression is on), each series carrying the channel's data type. [variant] selects the
+   revision of the Go code ([current] = /repo, [upstream] = the pinned tree before the two
+   fix: commits); [rmode] the kind of reader (bytes.Reader / opaque stream). *)
+From Coq Require Import List NArith Bool Permutation.
+Import ListNotations.
+From Synnax Require Import Common.Bytes Common.BytesProofs Generated.Consts_C08 Codec.FrameCodec
+  Codec.FrameCodecProofs Codec.FrameCodecNorm Codec.FrameCodecSafety Codec.FrameCodecIdem.
+Local Open Scope N_scope.
+
+(* (0) little-endian fields: what is written is what is read, for every width and value *)
+Theorem C08_le_roundtrip : forall w n rest,
+  n < 256 ^ N.of_nat w ->
+  length (encLE w n) = w /\ decLE (encLE w n) = n /\
+  read_uint w (encLE w n ++ rest) = RdOk n rest.
+Proof.
+  intros w n rest H. split; [apply encLE_length|]. split; [now apply decLE_encLE_small|now apply read_uint_enc].
+Qed.
+Print Assumptions C08_le_roundtrip.
+
+(* (1) ROUND TRIP. For every valid frame f over the agreed state st (any number of series per
+   channel, any subset of the channel set, foreign keys, any of the 64 flag combinations the
+   frame induces), the encoder produces bytes, and every decoder that holds st under the
+   transmitted sequence number returns exactly the normal form of f — with either reader kind
+   and either revision of the decoder. *)
+Theorem C08_roundtrip : forall V mode compress states st seq f,
+  frame_valid st f = true -> seq < two32 -> state_at states seq = Some st ->
+  exists bs, encode_state compress st seq f = Ok bs /\
+             fst (decode_states V mode states bs) = Ok (norm compress st f).
+Proof. exact roundtrip_state. Qed.
+Print Assumptions C08_roundtrip.
+
+(* (2) ... also while the two sides are any number of channel-set updates apart: the encoder
+   has processed the updates sts ++ [st], the decoder the same ones plus [extra] *)
+Theorem C08_roundtrip_desync : forall V mode E D sts st extra f,
+  all_states E = sts ++ [st] -> all_states D = (sts ++ [st]) ++ extra ->
+  lenN (sts ++ [st]) < two32 -> frame_valid st f = true ->
+  exists bs, snd (c_encode E f) = Ok bs /\
+             fst (snd (c_decode V mode D bs)) = Ok (norm (c_compress E) st f).
+Proof. exact roundtrip_desync. Qed.
+Print Assumptions C08_roundtrip_desync.
+
+(* ... and a decoder that is behind never returns a wrong frame: it rejects the message *)
+Theorem C08_decoder_behind_rejects : forall V mode E D f bs,
+  (length (all_states D) < length (all_states E))%nat -> lenN (all_states E) < two32 ->
+  snd (c_encode E f) = Ok bs ->
+  fst (snd (c_decode V mode D bs)) =
+    match all_states D with
+    | [] => if v_noinit_err V then Err ENotUpdated else Panic
+    | _ => Err EInvalidSeq
+    end.
+Proof. exact decode_behind. Qed.
+Print Assumptions C08_decoder_behind_rejects.
+
+(* updates append to the backlog; nothing is ever forgotten *)
+Theorem C08_update_appends : forall c st c',
+  c_update c st = Some c' -> all_states c' = all_states c ++ [st].
+Proof. exact update_states. Qed.
+Print Assumptions C08_update_appends.
+
+(* (3) "UP TO key order and the merging of alignment-contiguous series", made precise.
+   The sort is a stable, sorted permutation of the kept series ... *)
+Theorem C08_sort_stable_permutation : forall l,
+  Permutation (sortK l) l /\ sortedK (sortK l) /\
+  (forall a, filter (same_ka a) (sortK l) = filter (same_ka a) l) /\
+  (sortedK l -> sortK l = l).
+Proof.
+  intros l. split; [apply sortK_perm|]. split; [apply sortK_sorted|].
+  split; [intros a; apply sortK_stable|apply sortK_id].
+Qed.
+Print Assumptions C08_sort_stable_permutation.
+
+(* ... merging (and retyping) keeps, for every channel, exactly the bytes of its series in
+   (alignment, arrival) order — for every frame, valid or not — and the total size *)
+Theorem C08_norm_preserves_channel_samples : forall compress st f c,
+  chan_data c (norm compress st f) = chan_data c (sortK (keep st f)) /\
+  total_size (merge (sortK (keep st f))) = total_size (keep st f).
+Proof.
+  intros. split; [apply norm_chan_data|].
+  rewrite merge_total. apply total_size_perm. apply sortK_perm.
+Qed.
+Print Assumptions C08_norm_preserves_channel_samples.
+
+(* ... merging touches nothing unless a series starts exactly where its predecessor of the
+   same channel ends *)
+Theorem C08_merge_only_contiguous : forall l, nm l = true -> merge l = l.
+Proof. exact merge_nm_id. Qed.
+Print Assumptions C08_merge_only_contiguous.
+
+(* ... and the normal form is a normal form *)
+Theorem C08_norm_idempotent : forall st f,
+  frame_valid st f = true -> norm true st (norm true st f) = norm true st f.
+Proof. exact norm_idem. Qed.
+Print Assumptions C08_norm_idempotent.
+
+(* The monitor compares merge (sort decoded) with norm true st f; the model's own output passes
+   that comparison whether or not the encoder compresses (so the monitor is not stricter than
+   the round-trip theorem). *)
+Theorem C08_monitor_canonical : forall compress st f,
+  frame_valid st f = true -> merge (sortK (norm compress st f)) = norm true st f.
+Proof. exact canon_norm. Qed.
+Print Assumptions C08_monitor_canonical.
+
+(* (4) ANY BYTES. Decode returns a frame or one of five errors; it panics only (a) in the
+   upstream revision before the first update, or (b) when some agreed state carries a data
+   type without a density (not a real channel type). The model's out-of-fuel value is not
+   among the outcomes. *)
+Theorem C08_decode_total : forall V mode c bs,
+  match fst (snd (c_decode V mode c bs)) with
+  | Ok _ => True
+  | Err e => In e [EEOF; EUnexpectedEOF; EInvalidSeq; EUnknownKey; ENotUpdated]
+  | Panic => (v_noinit_err V = false /\ all_states c = []) \/ codec_known c = false
+  end.
+Proof. exact c_decode_total. Qed.
+Print Assumptions C08_decode_total.
+
+Theorem C08_decode_never_panics : forall mode c bs,
+  codec_known c = true -> fst (snd (c_decode current mode c bs)) <> Panic.
+Proof.
+  intros mode c bs Hk E. pose proof (c_decode_total current mode c bs) as H. rewrite E in H.
+  destruct H as [[H _]|H]; [discriminate|]. rewrite Hk in H. discriminate.
+Qed.
+Print Assumptions C08_decode_never_panics.
+
+(* the outcome does not depend on the reader kind nor on the allocation strategy *)
+Theorem C08_decode_reader_independent : forall V mode V' mode' states bs,
+  fst (decode_states V mode states bs) = fst (decode_states V' mode' states bs).
+Proof. exact decode_states_fst. Qed.
+Print Assumptions C08_decode_reader_independent.
+
+(* (5) ALLOCATION. Every make([]byte, n) of the decoder is logged. From an in-memory reader the
+   buffers together never exceed the input; from an opaque stream they stay within four times
+   the input plus the one speculative buffer. For every input and every codec state. *)
+Theorem C08_alloc_bounded : forall c bs,
+  sum_allocs (snd (snd (c_decode current Sized c bs))) <= lenN bs /\
+  sum_allocs (snd (snd (c_decode current Stream c bs))) <= 4 * lenN bs + maxPrealloc.
+Proof.
+  intros c bs. pose proof (c_decode_alloc Sized c bs) as H1. pose proof (c_decode_alloc Stream c bs) as H2.
+  cbn [alloc_factor alloc_const] in *. split; [|exact H2].
+  rewrite N.mul_1_l, N.add_0_r in H1. exact H1.
+Qed.
+Print Assumptions C08_alloc_bounded.
+
+(* The pinned upstream decoder did not satisfy (5) nor the "returns a frame or an error" part
+   of (4): findings F8 and F23; /repo carries the fixes and [current] copies them. *)
+Theorem C08_alloc_refuted_upstream :
+  exists states bs, lenN bs = 9 /\
+    sum_allocs (snd (decode_states upstream Sized states bs)) = 134217728.
+Proof. exists [mk_static [1] [10]], [9; 1; 0; 0; 0; 0; 0; 0; 1]. vm_compute. auto. Qed.
+Print Assumptions C08_alloc_refuted_upstream.
+
+Theorem C08_decode_panic_refuted_upstream :
+  fst (snd (c_decode upstream Sized (new_codec true) [])) = Panic.
+Proof. reflexivity. Qed.
+Print Assumptions C08_decode_panic_refuted_upstream.
+
+(* Non-vacuity: a valid frame over three channels (float64, timestamp written as int64,
+   string), given out of order, with a foreign key, two alignment-contiguous float64 series and
+   distinct time ranges. It is valid; five of the six flags are cleared (flag byte 1); the decoder, two updates
+   ahead of the encoder, returns the normal form, which differs from the input (sorted, merged,
+   retyped, filtered). *)
+Definition ex_st : cstate := mk_static [7; 2; 5] [13; 10; 11].
+Definition ex_f : frame :=
+  [ (5, mkS 8 5 9 0 [1;0;0;0;0;0;0;0]);
+    (2, mkS 10 10 20 (two32 + 1) [0;0;0;0;0;0;240;63]);
+    (9, mkS 10 0 0 0 [1;2;3;4;5;6;7;8]);
+    (7, mkS 13 0 0 0 [2;0;0;0;104;105]);
+    (2, mkS 10 1 10 two32 [0;0;0;0;0;0;0;64]) ].
+Definition ex_E : codec := mkC [mk_static [1] [1]] [ex_st] true.
+Definition ex_D : codec := mkC [mk_static [1] [1]; ex_st; mk_static [] []] [mk_static [3] [3]] true.
+Example C08_nonvacuous :
+  frame_valid ex_st ex_f = true /\
+  (exists bs, snd (c_encode ex_E ex_f) = Ok bs /\
+              hd 0 bs = 1 /\ lenN bs = 119 /\
+              fst (snd (c_decode current Stream ex_D bs)) = Ok (norm true ex_st ex_f)) /\
+  norm true ex_st ex_f =
+    [ (2, mkS 10 1 20 two32 [0;0;0;0;0;0;0;64; 0;0;0;0;0;0;240;63]);
+      (5, mkS 11 5 9 0 [1;0;0;0;0;0;0;0]);
+      (7, mkS 13 0 0 0 [2;0;0;0;104;105]) ].
+Proof.
+  split; [vm_compute; reflexivity|]. split; [|vm_compute; reflexivity].
+  eexists. split; [vm_compute; reflexivity|]. vm_compute. auto.
+Qed.
